@@ -35,6 +35,11 @@ def build(tree):
         if kind == "fn":
             f = func.FuncOp(name, ((), ()), Region(Block(kids + [func.ReturnOp()])), visibility=vis)
             return f
+        if kind == "uop":
+            # an op of an UNREGISTERED dialect wrapping more IR: it is neither a symbol nor a symbol table (has_trait answers True by default for such ops)
+            from xdsl.dialects.builtin import UnregisteredOp
+
+            return UnregisteredOp.with_name("unknown.wrapper").create(regions=[Region(Block(kids))])
         return test.TestOp.create(regions=[Region(Block(kids + [test.TestTermOp.create()]))] if kids else [])  # (terminated: the module must verify)
 
     return ModuleOp([mk(n) for n in tree])
@@ -154,20 +159,27 @@ def check_tree(tree, which):
             forms = [attr] + ([root, StringAttr(root)] if not nested else [])
             for f in forms:
                 got = {}
-                if which in ("utils", "all"):
-                    got["utils.lookup_nearest_symbol_from"] = SymbolTable.lookup_nearest_symbol_from(op, f)
-                if which in ("collection", "all") and uniq:
-                    got["collection.lookup_nearest_symbol_from"] = coll.lookup_nearest_symbol_from(op, f)
-                if which in ("trait", "all"):
+
+                def call(name, fn):
+                    # a lookup returns an operation or nothing: any other exception of the code under test is a failure, not a harness crash
                     try:
-                        got["traits.SymbolTable.lookup_symbol"] = TraitST.lookup_symbol(op, f)
+                        got[name] = fn()
                     except ValueError:
-                        got["traits.SymbolTable.lookup_symbol"] = None
+                        got[name] = None if name.startswith("traits.") else ("raised", "ValueError")
+                    except Exception as e:  # noqa: BLE001
+                        got[name] = ("raised", f"{type(e).__name__}: {str(e)[:80]}")
+
+                if which in ("utils", "all"):
+                    call("utils.lookup_nearest_symbol_from", lambda: SymbolTable.lookup_nearest_symbol_from(op, f))
+                if which in ("collection", "all") and uniq:
+                    call("collection.lookup_nearest_symbol_from", lambda: coll.lookup_nearest_symbol_from(op, f))
+                if which in ("trait", "all"):
+                    call("traits.SymbolTable.lookup_symbol", lambda: TraitST.lookup_symbol(op, f))
                 for k, g in got.items():
                     if g is not exp:
                         return {"entry point": k, "module": str(top), "from": op.name + "@" + str(info(op)[1]),
                                 "reference": "@" + "::@".join((root,) + tuple(nested)),
-                                "returned": None if g is None else f"{g.name} @{info(g)[1]} ({info(g)[2]})",
+                                "returned": None if g is None else (f"{g[1]}" if isinstance(g, tuple) else f"{g.name} @{info(g)[1]} ({info(g)[2]})"),
                                 "expected": None if exp is None else f"{exp.name} @{info(exp)[1]} ({info(exp)[2]})",
                                 "key": "C29/" + k}
     return None
@@ -205,6 +217,11 @@ def gen_trees(tier):
     # symbols named by the empty string (legal, and falsy in Python)
     deep.append(("mod", "", "public", [("fn", "a", "public", []), ("fn", "", "public", [])]))
     deep.append(("mod", "a", "public", [("mod", "", "public", [("fn", "a", "public", [])]), ("fn", "", "private", [])]))
+    # unregistered wrapper ops between a reference and its enclosing table
+    fa, fb = ("fn", "a", "public", []), ("fn", "b", "private", [])
+    deep.append(("uop", None, None, [fa, ("op", None, None, [])]))
+    deep.append(("mod", "a", "public", [("uop", None, None, [("op", None, None, []), fb]), fa]))
+    deep.append(("uop", None, None, [("uop", None, None, [("op", None, None, [])]), ("mod", "b", "public", [fa])]))
     for d in deep:
         tops.append([d])
         tops.append([d, ("fn", "b", "public", [])])
